@@ -119,10 +119,6 @@ func (x *Ctx) Expired() bool {
 	if x.expired {
 		return true
 	}
-	x.tick++
-	if x.tick&0x3ff != 0 {
-		return false
-	}
 	if time.Now().After(x.Deadline) {
 		x.expired = true
 		x.R.Exhaustive = false
